@@ -90,6 +90,22 @@ def c11(ctx):
         buffer_traces(ctx)
 
 
+def c15(ctx):
+    printer_slice(ctx, tier(ctx, "qerrorf", "errorf"))
+    if ctx.tier == "thorough":
+        printer_slice(ctx, "qerrorf", hook="plain")
+        printer_slice(ctx, "hook", hook="plain")
+
+
+def c17(ctx):
+    printer_slice(ctx, "hook", hook="plain")
+    printer_slice(ctx, "hook", hook="none")
+    if ctx.tier == "thorough":
+        printer_slice(ctx, "hook", hook="print")
+        printer_slice(ctx, "hook", hook="panic")
+        printer_slice(ctx, "qerrorf", hook="plain")
+
+
 def c04(ctx):
     cfgs, maxtok = tier(ctx, ("{1, 2, 3, 4, 5, 6, 7}", 3), ("{1, 2, 3, 4, 5, 6, 7}", 4))
     ctx.tlc_replay("MCFormat", "Format.cfg", ["format-replay", "-prop", "C04"], consts=dict(MaxTok=maxtok, ArgConfigs=cfgs))
@@ -134,6 +150,21 @@ PRINTER_RULE = ("TLC runs the Printer specification (transcription of printArg/h
                 "and the property's predicate evaluated on the real output; distinct = distinct real outputs. ")
 
 PROPS = {
+    "C15": dict(run=c15, exhaustive=True, rule=PRINTER_RULE + (
+        "C15: slice errorf = formats of 1..3 directives from {%w %v %d %[1]w %[2]w %5w %+w %#w} (quick: 4 of them) x operand "
+        "lists of length 0..2 over {error, error+Formatter, error+SafeFormatter, Safe(err), Unsafe(err), nil-receiver error, "
+        "nil, int, string, Stringer, panicking error}; model invariant: returned error = statement (modulo the F4 class); the "
+        "real HelperForErrorf is judged by the statement: returned error identity, %w text = %v text, misuse reported, text = "
+        "Sprintf's, and message/Unwrap of fmt.Errorf for at most one %w and plain operands"), assumptions=[
+        "wrapped operands and '+'/'#' flags on %w are not compared with fmt.Errorf (Go >= 1.20 treats %w flags like %v's; the fork's base does not)",
+        "F4, F5 are known findings"]),
+    "C17": dict(run=c17, exhaustive=True, rule=PRINTER_RULE + (
+        "C17: slice hook = 11 error capability mixes (plain, +Stringer, +Formatter, +SafeFormatter, +SafeMessager, +GoStringer, "
+        "+SafeValue, registered type, nil receiver, panicking Error, non-error) x 10 positions (top, Safe, Unsafe, slice, map "
+        "key/value, exported/unexported field, pointer-to-struct, inside Unsafe) x 8 directives + Sprint + %w / %w%w through "
+        "HelperForErrorf, under hook kinds plain (safe+unsafe emitters), print (nested Print), panic, and none; the real hook "
+        "records every invocation (error identity, verb) which must equal what the statement names"), assumptions=[
+        "an error printed inside a bad-verb report (erroring) or behind an unexported field is not formatted through method dispatch"]),
     "C02": dict(run=c02, exhaustive=True, rule=PRINTER_RULE + (
         "C02: each case is run twice with two instantiations of every payload the statement does not declare safe "
         "(strings with disjoint sentinel alphabets, equal emptiness and line-feed skeleton; distinct numbers), public "
